@@ -96,7 +96,7 @@ void harness(void)
   if (verif_rv > 0) V_CANARY("reproc_start.success_reachable");
   if (verif_rv > 0 && process->pipe.in == -1 && options.input.data != NULL) V_CANARY("reproc_start.success_with_input_reachable");
   if (verif_rv < 0 && verif_rv != -EINVAL) V_CANARY("reproc_start.failure_reachable");
-  if (verif_rv == -EINVAL && process != NULL && g.os_calls == 0) V_CANARY("reproc_start.rejected_reachable");
+  if (verif_rv == -EINVAL && process != NULL && g.e.os_calls == 0) V_CANARY("reproc_start.rejected_reachable");
 #endif
   if (!g.in_child || verif_rv != 0) {
     /* (in the fork-mode child the caller owns the handle: released by destroy) */
